@@ -33,8 +33,41 @@ MULTI = {"MacroF1", "MacroJaccard", "MacroPrecision", "MacroRecall", "MicroF1", 
          "CohenKappa", "Accuracy"}
 
 
-def pairs_for(name):
-    """three (y_true, prediction dict) pairs per metric family"""
+NVARIANTS = 4
+
+
+def pairs_for(name, variant=0):
+    """three (y_true, prediction dict) pairs per metric family; variant > 0: other representations of the same kind of
+    input - exact zeros and ones, negative values, ints / bools / NumPy scalars, string labels, a true label whose
+    probability is exactly 0 or that is missing from the dict"""
+    import numpy as np
+    v = variant % NVARIANTS
+    if v:
+        if name in REGRESSION:
+            return [None,
+                    {"p1": (0.0, {"output": 0.0}), "p2": (-1.5, {"output": 2}), "p3": (np.float64(3), {"output": np.float64(-3.25)})},
+                    {"p1": (2, {"output": 0}), "p2": (0, {"output": 5}), "p3": (7, {"output": 7.0})},
+                    {"p1": (1e-9, {"output": 0.0}), "p2": (-4.0, {"output": -4.0}), "p3": (0.5, {"output": 1e6})}][v]
+        if name in PROBA:
+            return [None,
+                    {"p1": (True, {"output": 1.0}), "p2": (False, {"output": 0.0}), "p3": (True, {"output": 0.0})},
+                    {"p1": (False, {"output": 1}), "p2": (True, {"output": 0.5}), "p3": (True, {"output": np.float64(0.25)})},
+                    {"p1": (1, {"output": 0.0}), "p2": (0, {"output": 0}), "p3": (np.bool_(True), {"output": 0.999})}][v]
+        if name in DICT:
+            return [None,
+                    {"p1": (1, {0: 1.0, 1: 0.0}), "p2": (0, {0: 1, 1: 0}), "p3": ("b", {"a": 1.0, "b": 0.0})},
+                    {"p1": (2, {0: 0.5, 1: 0.5}), "p2": (0, {0: 0.0, 1: 0.0, 2: 1.0}), "p3": (1, {0: False, 1: True})},
+                    {"p1": ("b", {"a": np.float64(1.0), "b": np.float64(0.0)}), "p2": ("a", {"a": 0.25, "b": 0.75}),
+                     "p3": (0, {0: 1e-20, 1: 1.0})}][v]
+        if name in MULTI:
+            return [None,
+                    {"p1": ("a", {"output": "a"}), "p2": ("a", {"output": "b"}), "p3": ("c", {"output": "a"})},
+                    {"p1": (1, {"output": 1}), "p2": (0, {"output": 2}), "p3": (0, {"output": 0})},
+                    {"p1": (np.int64(2), {"output": np.int64(2)}), "p2": (np.int64(0), {"output": np.int64(1)}), "p3": (3, {"output": 0})}][v]
+        return [None,
+                {"p1": (0, {"output": 1}), "p2": (1, {"output": 1}), "p3": (1, {"output": 0})},
+                {"p1": (np.bool_(True), {"output": np.bool_(False)}), "p2": (False, {"output": False}), "p3": (True, {"output": True})},
+                {"p1": (False, {"output": 0}), "p2": (True, {"output": 1}), "p3": (False, {"output": True})}][v]
     if name in REGRESSION:
         return {"p1": (2.0, {"output": 3.5}), "p2": (2.0, {"output": 0.25}), "p3": (4.0, {"output": 4.0})}
     if name in PROBA:
@@ -87,7 +120,7 @@ def single_value(name, pair):
         return ("raises", type(e).__name__)
 
 
-def replay_history(name, hist, nwrappers, reuse_buffer=False):
+def replay_history(name, hist, nwrappers, reuse_buffer=False, variant=0):
     """hist: list of (wrapper index, pair name).  Returns list of (clause, detail)."""
     import river.metrics as M
     from ixai.utils.validators.loss import validate_loss_function
@@ -100,7 +133,7 @@ def replay_history(name, hist, nwrappers, reuse_buffer=False):
         if not same(state_of(metric)[0], base[0]) or state_of(metric)[1] != base[1]:
             probs.append(("metric.probe_leaves_state", "%s: validate_loss_function changed the metric (%r -> %r)" % (name, base, state_of(metric))))
             return probs
-    pairs = pairs_for(name)
+    pairs = pairs_for(name, variant)
     sign = -1.0 if getattr(metric, "bigger_is_better", False) else 1.0
     buf = {}
     for i, (w, pn) in enumerate(hist):
